@@ -370,12 +370,19 @@ def main(argv=None):
         return path
 
     n_obl = 0
+    per_contract_viol = {}
+    extra_failing = []
     soft_fallback = []
     late_payloads = []
     group_first = {}  # (contract, base label, path) -> index into violations: one VIOLATION line per failing clause
     for o, s in zip(obligations, solved):
         solver_seconds += s["seconds"]
         gkey = (o["contract"], o["label"].split("[")[0], o["path"])
+        if s["verdict"] == "sat" and gkey not in group_first and per_contract_viol.get(o["contract"], 0) >= 6 and not any(is_known(nm) for nm in [o["name"]] + o["aliases"]):
+            # many clauses of one contract fail: report the first six with replays, count the rest
+            n_obl += 1 + len(o["aliases"])
+            extra_failing.append(o["name"])
+            continue
         if s["verdict"] == "sat" and gkey in group_first and not any(is_known(nm) for nm in [o["name"]] + o["aliases"]):
             n_obl += 1 + len(o["aliases"])
             group_first[gkey]["more_failing_entries"].append(o["name"])
@@ -433,6 +440,7 @@ def main(argv=None):
                 continue
             n_obl += len(names)
             payload["more_failing_entries"] = []
+            per_contract_viol[o["contract"]] = per_contract_viol.get(o["contract"], 0) + 1
             if confirmed is True:
                 group_first[gkey] = payload
                 path = write_replay(o["name"], payload)
@@ -555,6 +563,8 @@ def main(argv=None):
     for nm, path, suffix in violations:
         print(f"  failed obligation: {nm}")
         print(f"VIOLATION property={prop} replay={path}{suffix}")
+    if extra_failing:
+        print(f"  ... and {len(extra_failing)} further failing obligations (not replayed individually), e.g. {extra_failing[:3]}")
     for nm, why, path in undecided:
         print(f"UNDECIDED property={prop} obligation={nm} ({why}) {path}")
     for cname, (kind, msg) in broken:
